@@ -2066,7 +2066,8 @@ class Interp:
       if c is not None:
         self.path.event('call', key, (args, kwargs))
         return c(self, frame, args, kwargs)
-      if getattr(ufn, '_pyvc_spec', False):
+      if getattr(ufn, '_pyvc_spec', False) or (ufn.__module__ or '').startswith('contracts.'):
+        # helpers of the contract files are specification code
         return self.call_function(ufn, args, kwargs, spec_mode=True)
       if key in self.policy.inline or ufn.__module__ in self.policy.inline_modules:
         if _is_generator_cm(fn):
